@@ -62,11 +62,29 @@ pub struct Item {
     pub lo: u64,
     /// must be absent at every t >= hi
     pub hi: u64,
-    /// largest TTL the server may legitimately hold for it (0 = none)
-    pub ttl_max: u32,
+    /// the TTLs the server may legitimately hold for it
+    pub ttl: TtlSet,
     pub last_mut: Kind,
     /// any outcome is accepted for this key until the next unconditional store
     pub unknown: bool,
+}
+
+/// Candidate TTLs an item may carry: the largest finite one and whether
+/// "never expires" is among them.
+#[derive(Clone, Copy, Debug, PartialEq, Eq)]
+pub struct TtlSet {
+    pub fin: u32,
+    pub inf: bool,
+}
+
+impl From<u32> for TtlSet {
+    fn from(t: u32) -> TtlSet {
+        if t == 0 || t > MAX_REL_TTL {
+            TtlSet { fin: 0, inf: true }
+        } else {
+            TtlSet { fin: t, inf: false }
+        }
+    }
 }
 
 #[derive(Clone, Copy, Debug, PartialEq, Eq)]
@@ -156,6 +174,10 @@ pub struct Model {
     pub issued: BTreeMap<Vec<u8>, Vec<u64>>,
     pub item_limit: u32,
     pub loss: LossMode,
+    /// seconds around an expiry instant in which either outcome is accepted
+    /// (0 in the expiry check itself; 1 elsewhere, so that an off-by-one in
+    /// the expiry predicate is reported by C05 only)
+    pub expiry_slack: u64,
     pub violations: Vec<Violation>,
     /// coverage cells: (kind, outcome, presence)
     pub cells: BTreeSet<(Kind, u16, u8)>,
@@ -181,6 +203,7 @@ impl Model {
             issued: BTreeMap::new(),
             item_limit,
             loss,
+            expiry_slack: 0,
             violations: Vec::new(),
             cells: BTreeSet::new(),
             state_dependent: 0,
@@ -201,9 +224,9 @@ impl Model {
             Some(it) => {
                 if it.unknown {
                     Presence::Unknown
-                } else if self.now < it.lo {
+                } else if self.now.saturating_add(self.expiry_slack) < it.lo {
                     Presence::Present
-                } else if self.now < it.hi {
+                } else if self.now < it.hi.saturating_add(self.expiry_slack) {
                     Presence::Either
                 } else {
                     Presence::Expired
@@ -216,7 +239,7 @@ impl Model {
     pub fn must_present_keys(&self) -> Vec<Vec<u8>> {
         self.items
             .iter()
-            .filter(|(_, it)| !it.unknown && self.now < it.lo)
+            .filter(|(_, it)| !it.unknown && self.now.saturating_add(self.expiry_slack) < it.lo)
             .map(|(k, _)| k.clone())
             .collect()
     }
@@ -329,7 +352,7 @@ impl Model {
         client_cas: bool,
         lo: u64,
         hi: u64,
-        ttl_max: u32,
+        ttl: impl Into<TtlSet>,
         check_unique: bool,
     ) {
         let mut seen = BTreeSet::new();
@@ -369,7 +392,7 @@ impl Model {
                 client_cas_lifetime: client,
                 lo,
                 hi,
-                ttl_max,
+                ttl: ttl.into(),
                 last_mut: kind,
                 unknown: false,
             },
@@ -797,30 +820,26 @@ impl Model {
         }
     }
 
-    /// new (lo, hi, ttl_max) after an in-place mutation at `now`: the union of
-    /// "expiry kept", "restarted from now with the TTL it holds" and (counters)
-    /// "restarted with the TTL of the request"
-    fn inplace_interval(&self, it: &Item, extra_ttl: Option<u32>) -> (u64, u64, u32) {
+    /// new (lo, hi, ttl candidates) after an in-place mutation at `now`: the union
+    /// of "expiry kept", "restarted from now with a TTL it may hold" and
+    /// (counters) "restarted with the TTL of the request"
+    fn inplace_interval(&self, it: &Item, extra_ttl: Option<u32>) -> (u64, u64, TtlSet) {
         let mut lo = it.lo;
-        let mut tm = it.ttl_max;
-        let mut hi = it.hi.max(if tm == 0 { INF } else { self.now.saturating_add(tm as u64) });
+        let mut t = it.ttl;
         if let Some(x) = extra_ttl {
             if x == 0 {
-                hi = INF;
-                tm = 0;
+                t.inf = true;
             } else if x > MAX_REL_TTL {
-                hi = INF;
-                tm = 0;
+                t.inf = true;
                 lo = lo.min(self.now);
             } else {
                 lo = lo.min(self.now + x as u64);
-                hi = hi.max(self.now + x as u64);
-                if tm != 0 {
-                    tm = tm.max(x);
-                }
+                t.fin = t.fin.max(x);
             }
         }
-        (lo, hi, tm)
+        let restart = if t.inf { INF } else { self.now.saturating_add(t.fin as u64) };
+        let hi = it.hi.max(restart);
+        (lo, hi, t)
     }
 
     fn apply_concat(&mut self, req: &Request, resp: Option<&Response>, p: Presence, kind: Kind) {
@@ -1173,7 +1192,7 @@ impl Model {
             for it in self.items.values_mut() {
                 it.hi = it.hi.min(deadline);
                 it.lo = it.lo.min(now);
-                it.ttl_max = if it.ttl_max == 0 { delay } else { it.ttl_max.max(delay) };
+                it.ttl = TtlSet { fin: it.ttl.fin.max(delay), inf: false };
             }
         }
     }
